@@ -40,6 +40,8 @@ cdef class AsyncListener:
     @cython.locals(msg=DNSIncoming)
     cpdef _process_datagram_at_time(self, bint debug, cython.uint data_len, double now, bytes data, cython.tuple addrs)
 
+    cdef bint _holds_truncated_query_of(self, cython.tuple addrs)
+
     cdef _cancel_any_timers_for_addr(self, object addr)
 
     @cython.locals(incoming=DNSIncoming, deferred=list)
